@@ -307,10 +307,14 @@ func QualifierParser(prefix string) pars.Parser {
 				RegisterLiteralQualifier(name)
 			case toggleParser(state, result) == nil:
 				RegisterToggleQualifier(name)
+				result.SetToken(nil)
 			}
 		default:
 			if err := valueParsers[qtype](state, result); err != nil {
 				return err
+			}
+			if qtype == ToggleQualifier {
+				result.SetToken(nil)
 			}
 		}
 
